@@ -195,6 +195,54 @@ def apply(raw, mf, mv):
     return raw
 
 
+NODE = CR + "::inner::Node"
+
+
+def adt_roles(raw):
+    """{actual full path: canonical full path} for the three anchor types, found by shape: the arena is the crate struct whose only
+    field is an UnsafeCell<Vec<X>>; the node type is that X (prefix, optional value, two optional indices); the view position is
+    the two-variant enum (index) / (key, index) held by the view structs."""
+    out = {}
+    adts = {a["path"]: a for a in raw["adts"]}
+    arena = [a for a in raw["adts"] if a["kind"] == "Struct" and a["path"].startswith(CR + "::") and len(_struct_fields(a)) == 1
+             and re.match(r"^(std|core)::cell::UnsafeCell<(std|alloc)::vec::Vec<", _tys(raw, _struct_fields(a)[0]["ty"]))]
+    if len(arena) != 1:
+        return out
+    if arena[0]["path"] != TABLE:
+        out[arena[0]["path"]] = TABLE
+    m = re.match(r"^(?:std|core)::cell::UnsafeCell<(?:std|alloc)::vec::Vec<([\w:]+)<", _tys(raw, _struct_fields(arena[0])[0]["ty"]))
+    if m:
+        node = [a for a in raw["adts"] if a["path"].startswith(CR + "::") and (a["path"] == CR + "::" + m.group(1) or a["path"].endswith("::" + m.group(1)))]
+        if len(node) == 1 and node[0]["path"] != NODE:
+            out[node[0]["path"]] = NODE
+    locs = [a for a in raw["adts"] if a["kind"] == "Enum" and a["path"].startswith(CR + "::") and len(a["variants"]) == 2
+            and sorted(len(v["fields"]) for v in a["variants"]) == [1, 2]
+            and all(_tys(raw, v["fields"][-1]["ty"]) == "usize" for v in a["variants"])]
+    if len(locs) == 1 and locs[0]["path"] != VIEWLOC:
+        out[locs[0]["path"]] = VIEWLOC
+    # never rename onto a name that is already taken by another type
+    for old, new in list(out.items()):
+        if new in adts and new not in out:
+            del out[old]
+    return out
+
+
+def apply_adts(raw, ren):
+    """textual renaming of the anchor types over the whole fact base (full paths and crate-relative paths)"""
+    if not ren:
+        return raw
+    import json as _json
+    txt = _json.dumps(raw)
+    for old, new in ren.items():
+        for o, n_ in ((old, new), (old[len(CR) + 2:], new[len(CR) + 2:])):
+            txt = re.sub(r"(?<![\w:])" + re.escape(o) + r"(?![\w])", n_, txt)
+    out = _json.loads(txt)
+    out.setdefault("canonicalised", {}).update(ren)
+    raw.clear()
+    raw.update(out)
+    return raw
+
+
 def param_roles(raw):
     """[(fn path, binding id, old name, new name)]: in a function with exactly one parameter of the key type (`P`, `&P`) that
     parameter is called `prefix`; with exactly one parameter of the value type `T` it is called `value`.  (Parameter names
